@@ -52,7 +52,7 @@ func generateC05(c *core.Ctx, maxDev int) (*c05Gen, error) {
 		fl = append(fl, fmt.Sprintf("%q", f))
 	}
 	cfg := "CONSTANTS\n" + c05Consts() + fmt.Sprintf(" MCFlavours = {%s}\n MaxDev = %d\n Emit = TRUE\n", strings.Join(fl, ", "), maxDev) +
-		"SPECIFICATION Spec\nINVARIANT Design\nINVARIANT EmitInv\nCHECK_DEADLOCK FALSE\n"
+		"SPECIFICATION Spec\nINVARIANT EmitInv\nINVARIANT Design\nCHECK_DEADLOCK FALSE\n"
 	workers := c.Workers
 	if workers > 8 {
 		workers = 8
@@ -135,7 +135,6 @@ func (w *World) c05Data(d delivery) []byte {
 type c05Result struct {
 	obs    CObs
 	detail string
-	data   []byte
 }
 
 // deliverC05 runs one delivery on the node, with a confirmation run (longer watchdog, fresh
@@ -166,7 +165,7 @@ func deliverC05(ctx context.Context, w *World, n *Node, d delivery, measure bool
 		runtime.ReadMemStats(&after)
 		o.AllocK = int((after.TotalAlloc - before.TotalAlloc + 1023) / 1024)
 	}
-	return c05Result{obs: o, detail: detail, data: data}
+	return c05Result{obs: o, detail: detail}
 }
 
 func isCrash(o CObs) bool {
@@ -365,9 +364,9 @@ func CheckC05(c *core.Ctx) int {
 		return replayC05(c)
 	}
 	ctx := context.Background()
-	maxDev, reps, allocN := 2, 3, 2500
+	maxDev, reps, allocN := 2, 6, 3000
 	if c.Thorough() {
-		maxDev, reps, allocN = 3, 16, 30000
+		maxDev, reps, allocN = 3, 64, 60000
 	}
 	c.Logf("TLC: GossipCrashMC, class combinations with <= %d deviations (%s)", maxDev, strings.ReplaceAll(strings.TrimSpace(c05Consts()), "\n", ","))
 	g, err := generateC05(c, maxDev)
@@ -453,7 +452,7 @@ func CheckC05(c *core.Ctx) int {
 			maxAlloc, maxRatioLen = r.obs.AllocK, ars[i].obs.Len
 		}
 	}
-	selfTestCorruptC05(rs)
+	selfTestCorruptC05(ds, rs)
 	all := append(append([]delivery{}, ds...), ads...)
 	allRes := append(append([]c05Result{}, rs...), ars...)
 	hist := map[string]int{}
@@ -474,12 +473,7 @@ func CheckC05(c *core.Ctx) int {
 			return core.ExitInconclusive
 		}
 	}
-	lines := make([]Line, len(all)) // only for chunking
-	datas := make([][]byte, len(all))
-	for i := range all {
-		datas[i] = allRes[i].data
-	}
-	vo, err := validateLines(lines, datas, validateC05, func(a, b int) []byte { return encodeCLines(all, allRes, a, b) }, 8)
+	vo, err := validateLines(make([]Line, len(all)), make([][]byte, len(all)), validateC05, func(a, b int) []byte { return encodeCLines(all, allRes, a, b) }, 8)
 	if err != nil {
 		fmt.Println("INCONCLUSIVE:", err)
 		return core.ExitInconclusive
@@ -509,10 +503,11 @@ func CheckC05(c *core.Ctx) int {
 		site := f.Monitor + " " + all[i].cs.Fl + "/" + all[i].cs.Topic + " " + lastLine(allRes[i].detail)
 		bySite[site]++
 		if bySite[site] == 1 && reported < 8 {
+			data := w.c05Data(all[i])
 			path := c.WriteReplay(fmt.Sprintf("%d", reported), C05Replay{Prop: c.Prop, Seed: c.Seed, Case: all[i].cs.Raw, Rep: all[i].rep,
-				DataHex: hex.EncodeToString(allRes[i].data), Monitor: f.Monitor, Obs: allRes[i].obs, Detail: allRes[i].detail, Measure: i >= len(ds)})
+				DataHex: hex.EncodeToString(data), Monitor: f.Monitor, Obs: allRes[i].obs, Detail: allRes[i].detail, Measure: i >= len(ds)})
 			ob, _ := json.Marshal(allRes[i].obs)
-			c.Violation(path, fmt.Sprintf("monitor %s failed: case %s rep %d (%d bytes) observed %s: %s", f.Monitor, all[i].cs.Raw, all[i].rep, len(allRes[i].data), ob, allRes[i].detail))
+			c.Violation(path, fmt.Sprintf("monitor %s failed: case %s rep %d (%d bytes) observed %s: %s", f.Monitor, all[i].cs.Raw, all[i].rep, len(data), ob, allRes[i].detail))
 			reported++
 		}
 	}
@@ -526,12 +521,11 @@ func CheckC05(c *core.Ctx) int {
 	}
 	var samples []any
 	for _, i := range []int{0, len(all) / 4, len(all) / 2, 3 * len(all) / 4, len(all) - 1} {
-		samples = append(samples, map[string]any{"case": all[i].cs.Raw, "rep": all[i].rep, "bytes_hex_prefix": hex.EncodeToString(allRes[i].data[:min(48, len(allRes[i].data))]), "observed": allRes[i].obs})
+		data := w.c05Data(all[i])
+		samples = append(samples, map[string]any{"case": all[i].cs.Raw, "rep": all[i].rep, "bytes_hex_prefix": hex.EncodeToString(data[:min(48, len(data))]), "observed": allRes[i].obs})
 	}
-	nontriv := map[string]bool{}
-	for i := range all {
-		nontriv[fmt.Sprintf("%s#%d", all[i].cs.Raw, all[i].rep)] = true
-	}
+	// distinct (class combination, repetition): deliveries of the allocation pass repeat earlier ones
+	nontriv := len(ds)
 	specLeads := []string{}
 	if g.SpecViol != "" {
 		specLeads = append(specLeads, g.SpecViol)
@@ -539,7 +533,7 @@ func CheckC05(c *core.Ctx) int {
 	ev.Write(ev.Evidence{PropertyID: c.Prop, Tier: c.Tier, Seed: c.Seed, Level: "model_checking", WallS: time.Since(c.Start).Seconds(), Violations: violations,
 		Coverage: map[string]any{
 			"states": g.Distinct, "transitions": g.States, "traces_validated_against_impl": vo.traces, "samples": samples,
-			"evaluations": len(all), "distinct_nontrivial": len(nontriv),
+			"evaluations": len(all), "distinct_nontrivial": nontriv,
 			"rule": fmt.Sprintf("TLC enumerates flavour (6) x subscribed topic x message class record (5 message types, class fields of GossipCrash.tla) x byte-level class (8) x receiver state (3) with at most %d deviations from the flavour's canonical valid delivery and checks on every outcome the code-shaped layer allows that it neither panics nor hangs; every class combination is made concrete (real BLS / ECDSA objects, real envelope bytes; byte-level classes %d times with bytes from VERIF_SEED) and delivered to the real node assembly of the flavour: combined topic validator, then P2PMessaging.Handle on accept, under recover and a %v watchdog; %d deliveries are repeated single-threaded with a runtime.MemStats.TotalAlloc delta. evaluations = byte strings delivered; distinct_nontrivial = distinct (class combination, repetition); every line is validated by GossipCrashTrace (pass A monitors, pass B: the observed (verdict, handling) is one the code-shaped layer allows). This is structure-aware enumeration with seeded concretisation, not coverage-guided fuzzing.", maxDev, reps, Watchdog, len(ads)),
 			"tlc_wall_s": g.Wall, "replay_s": replayS, "alloc_pass_s": allocS, "validate_s": vo.wall, "class_combinations": len(g.Cases),
 			"repetitions_per_byte_class": reps, "max_deviations": maxDev, "outcome_histogram": hist, "accepted_per_flavour": perFl,
@@ -582,7 +576,7 @@ func lastLine(s string) string {
 
 // selfTestCorruptC05 (never active in a normal run): VERIF_C05_SELFTEST=panic -> pass A must fire;
 // =verdict -> pass B only.
-func selfTestCorruptC05(rs []c05Result) {
+func selfTestCorruptC05(ds []delivery, rs []c05Result) {
 	switch os.Getenv("VERIF_C05_SELFTEST") {
 	case "panic":
 		for i := range rs {
@@ -595,7 +589,7 @@ func selfTestCorruptC05(rs []c05Result) {
 		rs[0].obs.AllocK = allocBaseK + allocPerByteK*rs[0].obs.Len + 1
 	case "verdict":
 		for i := range rs {
-			if rs[i].obs.V == "reject" {
+			if rs[i].obs.V == "reject" && ds[i].cs.Bytes == "none" {
 				rs[i].obs.V, rs[i].obs.H = "accept", "ok"
 				break
 			}
